@@ -10,6 +10,7 @@ import (
 	"os"
 	osexec "os/exec"
 	"path/filepath"
+	"regexp"
 	"sort"
 	"strconv"
 	"strings"
@@ -33,7 +34,8 @@ type PropDef struct {
 	ID          string
 	Funcs       []string // functions verified against their contracts (proof mode)
 	Unwind      []*Unwinder
-	Tables      []string // names of table lemmas (see tables.go)
+	Only        map[string]string // unwinder name -> regexp: only the family's obligations with a matching name belong to this property
+	Tables      []string          // names of table lemmas (see tables.go)
 	Harness     []Harness
 	BV          bool // re-prove the bit-algebra axioms
 	Assumptions []string
@@ -177,7 +179,19 @@ func cmdCheck(args []string) {
 	}
 	// 2. complete unwinding families and table lemmas
 	for _, u := range def.Unwind {
-		all = append(all, runUnwinder(c, u)...)
+		rs := runUnwinder(c, u)
+		if pat := def.Only[u.Name]; pat != "" {
+			re := regexp.MustCompile(pat)
+			kept := rs[:0:0]
+			for _, r := range rs {
+				// engine-level failures (unwinding did not complete, worker died) always count
+				if re.MatchString(r.Name) || strings.HasSuffix(r.Name, "/unwinding") || strings.Contains(r.Name, "/worker") {
+					kept = append(kept, r)
+				}
+			}
+			rs = kept
+		}
+		all = append(all, rs...)
 	}
 	for _, t := range def.Tables {
 		all = append(all, runTableLemma(c, t)...)
